@@ -1,6 +1,7 @@
 import MJ.Proofs.CmpNumFloatEq
 import MJ.Proofs.CmpMap
 import MJ.Proofs.CmpLookup
+import MJ.Proofs.CollV
 import MJ.Proofs.CmpF64Order
 import MJ.Proofs.CollGroup
 import MJ.Proofs.CollRuns
@@ -15,7 +16,7 @@ Property theorems only (helper lemmas live in `MJ/Proofs/Cmp*.lean`, `MJ/Proofs/
 * `Coll.*` are the models of the collection filters over an arbitrary item type and comparison.
 -/
 namespace MJ.C07
-open MJ MJ.Val MJ.Cmp MJ.F64 MJ.CmpKey MJ.CmpNum MJ.CmpEq MJ.Coll Std
+open MJ MJ.Val MJ.Cmp MJ.F64 MJ.CmpKey MJ.CmpNum MJ.CmpEq MJ.Coll MJ.CollV Std
 
 /-! ## the order -/
 
@@ -373,5 +374,152 @@ example : slicef [1, 2, 3, 4, 5, 6, 7] 3 (none : Option Nat) = .ok [[1, 2, 3], [
 example : slicef [1, 2, 3, 4, 5, 6, 7] 3 (some 0) = .ok [[1, 2, 3], [4, 5, 0], [6, 7, 0]] := by decide
 example : slicef [1, 2] 9223372036854775807 (none : Option Nat) = .error := by decide
 example : reservable 3 = true ∧ (0 : Nat) < 3 := by decide
+
+/-! ## the filters on values, as `filters.rs` writes them -/
+
+/-- `cmp_helper` (case folding only when both operands are strings, `reverse` flips) is `Value::cmp`
+    on the case-folded operands — so it is a total preorder on values within range -/
+theorem cmp_helper_is_cmp_on_folded (cs rev : Bool) (a b : V) :
+    cmpHelper cs rev a b = revCmp (fun x y => cmpV (foldCase cs x) (foldCase cs y)) rev a b :=
+  cmpHelper_eq cs rev a b
+
+example : cmpHelper false false (.str [65]) (.str [97]) = .eq ∧ cmpHelper true false (.str [65]) (.str [97]) = .lt ∧
+    cmpHelper false true (.num (.i64 1)) (.str [97]) = .gt := by decide
+
+/-- `sort(case_sensitive, reverse, attribute)` on values: a permutation, ordered by `cmp_helper` on
+    the keys, items with `Equal` keys in input order (also with `reverse=true`) -/
+theorem sort_values_spec (m : Mode) (cs rev : Bool) (attr : Option (List Nat)) (xs : List V)
+    (h : ∀ x ∈ xs, MJ.C07.InRange (keyOf m attr x)) :
+    (sortV m cs rev attr xs).Perm xs ∧
+    (sortV m cs rev attr xs).Pairwise (fun a b => cmpHelper cs rev (keyOf m attr a) (keyOf m attr b) ≠ .gt) ∧
+    (∀ a b, [a, b].Sublist xs → cmpHelper cs rev (keyOf m attr a) (keyOf m attr b) = .eq →
+      [a, b].Sublist (sortV m cs rev attr xs)) :=
+  sortV_spec m cs rev attr xs h
+
+/-- the hypothesis is satisfiable: two maps with attribute `k` holding `"a"` and `"A"` (equal keys
+    when case-insensitive) and a NaN -/
+example : ∀ x ∈ [V.map [(.str [107], .str [97])], .map [(.str [107], .str [65])], .map [(.str [107], .num (.f64 0x7ff8000000000000))]],
+    MJ.C07.InRange (keyOf .btree (some [107]) x) := by
+  intro x hx
+  simp only [List.mem_cons, List.not_mem_nil, or_false] at hx
+  rcases hx with rfl | rfl | rfl <;> simp [keyOf, attrOr, getByStr, scanStr, MJ.Gen.valueMapStrScanMax, AllNum, N.WF, P64, i64Min, i64Max, u64Max]
+
+/-- `dictsort(case_sensitive, reverse, by)`: a stable sort of the `(key, value)` pairs by the key or
+    the value projection -/
+theorem dictsort_spec (cs rev byValue : Bool) (ps : List (V × V))
+    (h : ∀ p ∈ ps, MJ.C07.InRange (if byValue then p.2 else p.1)) :
+    (dictsortV cs rev byValue ps).Perm ps ∧
+    (dictsortV cs rev byValue ps).Pairwise (fun a b =>
+      cmpHelper cs rev (if byValue then a.2 else a.1) (if byValue then b.2 else b.1) ≠ .gt) ∧
+    (∀ a b, [a, b].Sublist ps →
+      cmpHelper cs rev (if byValue then a.2 else a.1) (if byValue then b.2 else b.1) = .eq →
+      [a, b].Sublist (dictsortV cs rev byValue ps)) :=
+  dictsortV_spec cs rev byValue ps h
+
+example : ∀ p ∈ [((V.str [98]), V.num (.i64 2)), (.str [66], .num (.f64 0))], MJ.C07.InRange (if true then p.2 else p.1) := by
+  intro p hp
+  simp only [List.mem_cons, List.not_mem_nil, or_false] at hp
+  rcases hp with rfl | rfl <;> simp [keyOf, attrOr, getByStr, scanStr, MJ.Gen.valueMapStrScanMax, AllNum, N.WF, P64, i64Min, i64Max, u64Max]
+
+/-- `unique(case_sensitive, attribute)`: an order-preserving sub-sequence without two `Equal`
+    memorised keys that represents every input key and keeps first occurrences — whatever the
+    lower-casing function (`str::to_lowercase`) does -/
+theorem unique_values_spec (m : Mode) (lower : List Nat → List Nat) (cs : Bool) (attr : Option (List Nat)) (xs : List V)
+    (h : ∀ x ∈ xs, MJ.C07.InRange (keyOf m attr x)) :
+    (uniqueV m lower cs attr xs).Sublist xs ∧
+    (uniqueV m lower cs attr xs).Pairwise
+      (fun a b => cmpV (uniqKey m lower cs attr a) (uniqKey m lower cs attr b) ≠ .eq) ∧
+    (∀ x ∈ xs, ∃ y ∈ uniqueV m lower cs attr xs,
+      cmpV (uniqKey m lower cs attr y) (uniqKey m lower cs attr x) = .eq) ∧
+    (∀ pre x post, xs = pre ++ x :: post →
+      (∀ p ∈ pre, cmpV (uniqKey m lower cs attr p) (uniqKey m lower cs attr x) ≠ .eq) →
+      x ∈ uniqueV m lower cs attr xs) :=
+  uniqueV_spec m lower cs attr xs h
+
+/-- `groupby(attribute, default, case_sensitive)`: the groups concatenate to the input stably sorted
+    by the attribute (hence partition it), no group is empty, every member's attribute is `Equal`
+    to the grouper, groupers strictly increasing -/
+theorem groupby_values_spec (m : Mode) (cs : Bool) (name : List Nat) (dflt : V) (xs : List V)
+    (h : ∀ x ∈ xs, MJ.C07.InRange (attrOr m name dflt x)) :
+    let G := groupbyV m cs name dflt xs
+    let S := xs.mergeSort (fun a b => cmpHelper cs false (attrOr m name dflt a) (attrOr m name dflt b) != .gt)
+    G.flatMap (·.2) = S ∧ S.Perm xs ∧
+    (∀ p ∈ G, p.2 ≠ [] ∧ ∀ y ∈ p.2, cmpHelper cs false p.1 (attrOr m name dflt y) = .eq) ∧
+    G.Pairwise (fun p q => cmpHelper cs false p.1 q.1 = .lt) :=
+  groupbyV_spec m cs name dflt xs h
+
+example : ∀ x ∈ [V.map [(.str [107], .num (.u64 1))], .none], MJ.C07.InRange (attrOr .btree [107] (.num (.i64 0)) x) := by
+  intro x hx
+  simp only [List.mem_cons, List.not_mem_nil, or_false] at hx
+  rcases hx with rfl | rfl <;> simp [keyOf, attrOr, getByStr, scanStr, MJ.Gen.valueMapStrScanMax, AllNum, N.WF, P64, i64Min, i64Max, u64Max]
+
+/-- `min` / `max` on values within range -/
+theorem min_max_values (xs : List V) (h : ∀ x ∈ xs, MJ.C07.InRange x) (r : V) :
+    (Coll.minBy cmpV xs = some r → r ∈ xs ∧ ∀ x ∈ xs, cmpV r x ≠ .gt) ∧
+    (Coll.maxBy cmpV xs = some r → r ∈ xs ∧ ∀ x ∈ xs, cmpV r x ≠ .lt) :=
+  minmaxV_spec xs h r
+
+/-- `x in xs` (lists, tuples, iterables; also the `in` test): some item is `==` to `x` -/
+theorem in_seq_iff (m : Mode) (xs : List V) (x : V) :
+    (containsV m (.seq xs) x = some true ↔ ∃ y ∈ xs, eqV m y x = true) ∧
+    (containsV m (.tuple xs) x = some true ↔ ∃ y ∈ xs, eqV m y x = true) ∧
+    (containsV m (.iter xs) x = some true ↔ ∃ y ∈ xs, eqV m y x = true) :=
+  contains_seq_iff m xs x
+
+/-- `x in m` for a map: some key compares `Equal` to `x`; outside the excluded regions (NaN, a bool
+    facing a number) that is "some key is `==` to `x`" -/
+theorem in_map_iff (ps : List (V × V)) (x : V) :
+    (containsV .btree (.map ps) x = some true ↔ ∃ p ∈ ps, cmpV x p.1 = .eq) ∧
+    (NoNaN x → (∀ p ∈ ps, NoNaN p.1) → SortedMaps x → (∀ p ∈ ps, SortedMaps p.1) →
+      (∀ p ∈ ps, noClash x p.1 = true) →
+      (containsV .btree (.map ps) x = some true ↔ ∃ p ∈ ps, eqV .btree p.1 x = true)) :=
+  ⟨contains_map_iff_cmp ps x, fun hx hps sx sps hc => contains_map_iff_eq ps x hx hps sx sps hc⟩
+
+example : containsV .btree (.map [(.num (.i64 1), .none)]) (.num (.f64 0x3ff0000000000000)) = some true := by decide +kernel
+
+/-- `select` / `reject` (and `selectattr` / `rejectattr`) with a test: the filter by the test and its
+    complement, in input order; `eq` is `==`, `lt`…`ge` are `Value::cmp`, `in` is containment -/
+theorem select_reject_spec (m : Mode) (attr : Option (List Nat)) (t : Test) (arg : V) (xs : List V) :
+    selectV m false attr t arg xs = xs.filter (fun x => testV m t (keyOf m attr x) arg) ∧
+    selectV m true attr t arg xs = xs.filter (fun x => !testV m t (keyOf m attr x) arg) ∧
+    (selectV m false attr t arg xs ++ selectV m true attr t arg xs).Perm xs ∧
+    (selectV m false attr t arg xs).Sublist xs ∧ (selectV m true attr t arg xs).Sublist xs :=
+  select_reject m attr t arg xs
+
+theorem select_tests_spec (m : Mode) (a b : V) :
+    testV m .eq a b = eqV m a b ∧ testV m .ne a b = !eqV m a b ∧
+    (testV m .lt a b = true ↔ cmpV a b = .lt) ∧ (testV m .le a b = true ↔ cmpV a b ≠ .gt) ∧
+    (testV m .gt a b = true ↔ cmpV a b = .gt) ∧ (testV m .ge a b = true ↔ cmpV a b ≠ .lt) ∧
+    (testV m .isIn a b = true ↔ containsV m b a = some true) :=
+  select_tests m a b
+
+/-- a map literal `{…, k: v, …}` (`BTreeMap::insert` pair by pair): looking `k` up gives the value
+    inserted last, and the keys stay strictly increasing (an `Equal` key is never entered twice) -/
+theorem map_literal_last_wins (k v : V) (hk : MJ.C07.InRange k) (ps : List (V × V))
+    (hr : ∀ p ∈ ps, MJ.C07.InRange p.1) (hs : KeysSorted ps) :
+    getB k (insertLit k v ps) = some v ∧ KeysSorted (insertLit k v ps) :=
+  ⟨insertLit_lookup k v (cmp_refl k hk) ps, insertLit_sorted k v hk ps hr hs⟩
+
+example : (insertLit (.num (.f64 0x3ff0000000000000)) (.str [98]) [(.num (.i64 1), .str [97])]).length = 1 ∧
+    (getB (.num (.i64 1)) (insertLit (.num (.f64 0x3ff0000000000000)) (.str [98]) [(.num (.i64 1), .str [97])])).isSome = true := by
+  decide +kernel
+
+/-- what the code guarantees about NaN: the *order* treats a NaN as equal to itself (so sorting and
+    `BTreeMap` lookups stay well-defined — `cmp_refines_key` holds with NaNs), while `==` does not -/
+theorem nan_eq_irreflexive (b : Nat) (h : isNaN b = true) :
+    eqN (.f64 b) (.f64 b) = false ∧ cmpN (.f64 b) (.f64 b) = .eq := by
+  refine ⟨?_, ?_⟩
+  · simp [eqN, coerceN, feq, h]
+  · simp only [cmpN, coerceN]
+    rw [cmpF64_eq]; exact Int.compare_eq_eq.mpr rfl
+
+example : isNaN 0x7ff8000000000000 = true := by decide
+
+/-- the regenerated source facts the model reads: which kinds share an ordering slot, the size of
+    the small-map fast path, which variants `Hash` feeds as a zero byte -/
+theorem source_tables_tie :
+    MJ.Gen.cmpKindAlias = [("Iterable", "Seq")] ∧ MJ.Gen.hashSharedZeroKinds = ["None", "Undefined"] ∧
+    hkey .none = hkey .undef ∧ 0 < MJ.Gen.valueMapStrScanMax := by
+  refine ⟨rfl, rfl, rfl, by decide⟩
 
 end MJ.C07
